@@ -226,8 +226,11 @@ fn judge(l: &Lit, ctxk: Context, acc: &mut Acc) {
             // lui: only 0 <= v < 2^20 is defined by the statement
             let expect: Option<i64> = match ctxk {
                 Context::Lui => {
-                    if *v >= 0 && *v < (1 << 20) {
-                        Some(i64::from(((*v as i64) << 12) as i32))
+                    // (negative operands down to -2^19 are the same 20 bits in two's complement)
+                    // (judged on the 32-bit reading of the literal, like every other operand: 0xffffffff is -1)
+                    let r = i64::from(reading(*v));
+                    if r >= -(1 << 19) && r < (1 << 20) {
+                        Some(i64::from((r << 12) as i32))
                     } else {
                         None
                     }
@@ -235,7 +238,21 @@ fn judge(l: &Lit, ctxk: Context, acc: &mut Acc) {
                 _ => Some(i64::from(reading(*v))),
             };
             let Some(expect) = expect else {
-                acc.count("lui_out_of_20_bits_recorded_not_judged", 1);
+                // an operand that does not fit the 20 bits of lui: accepting it means reading it as
+                // a different number (the high bits fall off)
+                acc.count("lui_operands_wider_than_20_bits", 1);
+                match seen {
+                    Seen::Rejected { .. } => {
+                        acc.nontrivial.insert(hash64(&format!("{}@{}", l.text, ctxk.name())));
+                    }
+                    Seen::Value(got) => acc.violation(
+                        sig("accept-unfitting", "lui-operand-wider-than-20-bits"),
+                        format!("`{}` (= {v}) does not fit the 20-bit operand of lui, but is accepted and the register is loaded with {got}", l.text),
+                        replay,
+                    ),
+                    Seen::Nothing => acc.violation(sig("vanished", "lui-operand-wider-than-20-bits"), format!("`{}` in lui: no node and no error", l.text), replay),
+                    Seen::Panic(_) => unreachable!(),
+                }
                 return;
             };
             match seen {
@@ -357,7 +374,7 @@ pub fn run(ctx: &Ctx) -> i32 {
          character literals, malformed spellings. distinct_nontrivial = distinct (spelling, context) pairs whose reading/rejection was confirmed correct",
     );
     rep.assume("reference denotation: optional '-' then decimal, 0x/0X hex, 0b/0B binary digits, or a character literal; fits iff -2^31 <= v <= 2^32-1");
-    rep.assume("for lui only operands 0 <= v < 2^20 are judged (imm == v << 12); larger operands are recorded, not judged");
+    rep.assume("lui: operands -2^19 <= v < 2^20 must give v << 12 (no bit is lost); any other operand cannot be placed in the upper 20 bits and must be rejected");
     rep.assume("`zero` being accepted as the immediate 0 is noted, not judged");
     let n_random: usize = ctx.tier.pick(1_000_000, 10_000_000);
     let jobs = ctx.jobs;
